@@ -177,7 +177,7 @@ def c06(chk):
                        "the adversary holds a valid identity of its own (it is a connected peer)"]
     chk.add_mc(tlc_mc("AnemoRpc.tla", "MC_Rpc_hostile.cfg", workers=8, timeout=900))
     runs = 8 if quick(chk) else 200
-    summ = harness("c06", out=os.path.join(vlib.WORK, "C06"), seed=chk.seed, runs=runs, jobs=8, files=4,
+    summ = harness("c06", out=os.path.join(vlib.WORK, "C06"), seed=chk.seed, runs=runs, jobs=8, files=4, wedge_s=90,
                    streams=60 if quick(chk) else 150)
     summ["args"] = {}
     import copy
